@@ -641,9 +641,11 @@ func (self *Core) runInstruction(instruction compiler.Instruction) *value.VmInte
 		v := *self.pop()
 		field, found := v.(value.ValueAnyObject).FieldsInternal[i.Value]
 		if !found {
+			// Exactly one value is the result of this instruction.
 			self.push(value.NewNoneOption())
+		} else {
+			self.push(value.NewValueOption(field))
 		}
-		self.push(value.NewValueOption(field))
 	case compiler.Opcode_Member_Unwrap:
 		val := self.pop()
 		inner := (*val).(value.ValueOption).Inner
